@@ -403,8 +403,16 @@ package mapping
 
 // C17: a string element of a JSON array is stored as it is (no trimming or other rewriting on the way to the setter), which
 // is what encoding/json does
+// ... and an element is stored by reflect only after its dynamic type was checked to be assignable to the slot (a wrongly
+// typed element is an error, never a reflect panic) - for pointer element types as for plain ones
 //@ func (u *Unmarshaler) fillSliceValue
-//@   property C17
+//@   property C17 C08
+//@   ghost at entry: as0 = false
+//@   ghost at entry: as1 = false
+//@   ghost at after AssignableTo#0: as0 = ret
+//@   ghost at after AssignableTo#1: as1 = ret
+//@   call Set#0: assert as0
+//@   call Set#1: assert as1
 //@   call setValueFromString#1: assert boxed(arg_str) == value && arg_kind == baseKind
 
 // C08 slices are filled element by element into a slice made for this target (reflect.MakeSlice): what is set into the target
